@@ -49,7 +49,7 @@ _state = {}
 
 def _init():
     if not _state:
-        sys.path.insert(0, "/repo/src")
+        sys.path.insert(0, (os.environ.get("VERIF_REPO") or "/repo") + "/src")
         import numba
         import numpy
         import vector
